@@ -225,6 +225,11 @@ impl RoutingTable {
         self.responders_subnets_sum += subnets_count as usize;
     }
 
+    pub(crate) fn increment_dht_size_estimate(&mut self, dht_size_estimate: f64) {
+        self.dht_size_estimates_count += 1;
+        self.dht_size_estimates_sum += dht_size_estimate;
+    }
+
     pub(crate) fn decrement_dht_size_estimate(&mut self, dht_size_estimate: f64) {
         self.dht_size_estimates_count -= 1;
         self.dht_size_estimates_sum -= dht_size_estimate;
